@@ -8,6 +8,7 @@ import Driver.AutoCmd
 import Driver.DdeCmd
 import Driver.GridCmd
 import Driver.GammaCmd
+import Driver.InterpCmd
 open Lean PyRates.Driver
 
 def dispatch (comp : String) (j : Json) : Except String Json :=
@@ -24,6 +25,7 @@ def dispatch (comp : String) (j : Json) : Except String Json :=
   | "dde" => ddeCmd j
   | "grid" => gridCmd j
   | "gamma" => gammaCmd j
+  | "interp" => interpCmd j
   | _ => .error s!"unknown component {comp}"
 
 partial def loop (h : IO.FS.Stream) (out : IO.FS.Stream) : IO Unit := do
